@@ -208,6 +208,7 @@ Proof.
     + apply Nat.eqb_eq in Ej. apply nth_some_lt in Hj. lia.
     + exists jb. split; [exact Hj| exact D].
   - (* close returns *) exists jb. split; [exact Hj|]. apply (settled_doomed (timed g && expired g)); [exact (forallb_nth _ _ _ _ E0 Hj)| exact D].
+  - (* a budget armed between calls: nothing is in flight *) exists jb. split; [exact Hj|]. apply (settled_doomed (timed g && expired g)); [exact (forallb_nth _ _ _ _ E0 Hj)| exact D].
   - (* again *) exists jb. split; [exact Hj|]. apply (settled_doomed (timed g && expired g)); [|exact D].
     refine (forallb_nth _ _ _ _ (inv_closed _ _ I _) Hj). rewrite E. reflexivity.
   - (* acquire *) unfold doomed in *. rewrite E1 in D. cbn. destruct P as (_ & _ & R). split; [exact D| intros X; congruence].
@@ -278,6 +279,7 @@ Proof.
   destruct e; step_inv H; unfold set_job, set_phase, set_flags, setg, budget_out in *; cbn [jobs timed expired] in *; try exact Pr.
   all: try (apply Forall_upd; [exact Pr|]; unfold pre_ok; cbn [jph jret jpre job_write job_phase job_start job_ret]; try (intros; discriminate)).
   - apply Forall_app. split; [exact Pr| constructor; [|constructor]]. unfold pre_ok. cbn. discriminate.
+  - apply settled_pre. exact E0.
   - apply settled_pre. exact E0.
   - apply settled_pre. apply (inv_closed _ _ I). rewrite E. reflexivity.
   - (* acquire: nothing returned yet *) intros _ R. pose proof (ok_phase _ _ (getj_ok _ _ _ _ I E0)) as P. unfold phase_ok in P. rewrite E1 in P.
